@@ -531,6 +531,13 @@ func (ex *Exec) heapGet(st *State, o *Obj) Val {
 	}
 	nm := o.Name
 	for _, suf := range []string{".dyn", ".arr", "^"} {
+		if suf == "^" {
+			if _, isStruct := under(o.T).(*types.Struct); !isStruct {
+				if _, isScalar := scalarSort(o.T); !isScalar {
+					continue // cells holding references keep the marker: their referent gets its own name
+				}
+			}
+		}
 		nm = strings.TrimSuffix(nm, suf)
 	}
 	v = ex.materialise(o, nm)
